@@ -10,7 +10,7 @@
 (***************************************************************************)
 EXTENDS StreamGhost, Json
 
-CONSTANTS MaxDepth, MaxMsg, UseFail, UseX
+CONSTANTS MaxDepth, MaxMsg, UseFail, UseX, UseGate
 
 VARIABLES cs,        \* embedded ClientStream set
           initErr,   \* initStreamErr set
@@ -22,7 +22,7 @@ VARIABLES cs,        \* embedded ClientStream set
 mvars == <<cs, initErr, cancelled, inv, nmsg, th>>
 vars == <<mvars, g, ev, hist>>
 
-Idle == [kind |-> "", msg |-> 0, fail |-> FALSE, pc |-> "idle"]
+Idle == [kind |-> "", msg |-> 0, fail |-> FALSE, gated |-> FALSE, pc |-> "idle"]
 
 Init ==
   /\ cs = FALSE /\ initErr = FALSE /\ cancelled = FALSE /\ inv = 0 /\ nmsg = 0
@@ -36,10 +36,13 @@ MutexHeld(t2) == \E t \in Threads : t2[t].pc = "gate"
 \* one scheduling step of thread t in state s = [cs, initErr, inv, th, rets, dlog, cmsg]; returns the new s
 RunOne(s, t) ==
   LET c == s.th[t] IN
-  IF c.pc \in {"idle", "gate"} THEN s
+  IF c.pc \in {"idle", "gate", "dgate"} THEN s
   ELSE IF c.kind = "send"
   THEN IF MutexHeld(s.th) THEN [s EXCEPT !.th[t].pc = "mutex"]
        ELSE IF ~s.cs THEN [s EXCEPT !.th[t].pc = "gate", !.inv = @ + 1, !.cmsg = Append(@, c.msg)]
+       ELSE IF c.gated
+       THEN \* the underlying SendMsg blocks until a receiver reads from the underlying stream (flow control)
+            [s EXCEPT !.th[t].pc = "dgate", !.bcast = TRUE]
        ELSE [s EXCEPT !.th[t] = Idle, !.dlog = Append(@, [kind |-> "send", msg |-> c.msg]),
                       !.rets = Append(@, [th |-> t, kind |-> "send", msg |-> c.msg, res |-> IF c.fail THEN "ERRD" ELSE "OK"]),
                       !.bcast = TRUE]
@@ -47,8 +50,13 @@ RunOne(s, t) ==
   THEN IF MutexHeld(s.th) THEN [s EXCEPT !.th[t].pc = "mutex"]
        ELSE IF ~s.initErr /\ ~s.cs THEN [s EXCEPT !.th[t].pc = "cond"]
        ELSE IF s.initErr THEN [s EXCEPT !.th[t] = Idle, !.rets = Append(@, [th |-> t, kind |-> "recv", msg |-> 0, res |-> "ERRC"])]
-       ELSE [s EXCEPT !.th[t] = Idle, !.dlog = Append(@, [kind |-> "recv", msg |-> 0]),
-                      !.rets = Append(@, [th |-> t, kind |-> "recv", msg |-> 0, res |-> IF c.fail THEN "ERRD" ELSE "OK"])]
+       ELSE LET s1 == [s EXCEPT !.th[t] = Idle, !.dlog = Append(@, [kind |-> "recv", msg |-> 0]),
+                                !.rets = Append(@, [th |-> t, kind |-> "recv", msg |-> 0, res |-> IF c.fail THEN "ERRD" ELSE "OK"])]
+                G == {x \in Threads : s.th[x].pc = "dgate"}
+            IN IF G = {} THEN s1
+               ELSE LET x == CHOOSE y \in G : TRUE IN
+                    [s1 EXCEPT !.th[x] = Idle, !.dlog = Append(@, [kind |-> "send", msg |-> s.th[x].msg]),
+                               !.rets = Append(@, [th |-> x, kind |-> "send", msg |-> s.th[x].msg, res |-> IF s.th[x].fail THEN "ERRD" ELSE "OK"])]
   ELSE \* header / trailer / closesend / context: promoted methods of the embedded (possibly nil) ClientStream
        IF ~s.cs THEN [s EXCEPT !.th[t] = Idle, !.rets = Append(@, [th |-> t, kind |-> c.kind, msg |-> 0, res |-> "PANIC"])]
        ELSE [s EXCEPT !.th[t] = Idle, !.dlog = Append(@, [kind |-> c.kind, msg |-> 0]),
@@ -73,7 +81,7 @@ Start0 == [cs |-> cs, initErr |-> initErr, inv |-> inv, th |-> th, rets |-> <<>>
 BlkOf(t2) == LET RECURSIVE F(_)
                  F(S) == IF S = {} THEN <<>>
                          ELSE LET t == CHOOSE x \in S : \A y \in S : (x = "S") \/ (x = "R" /\ y # "S") \/ (x = "X" /\ y = "X") IN
-                              (IF t2[t].pc \in {"mutex", "gate", "cond"}
+                              (IF t2[t].pc \in {"mutex", "gate", "cond", "dgate"}
                                THEN <<[th |-> t, kind |-> t2[t].kind, where |-> t2[t].pc]>> ELSE <<>>) \o F(S \ {t})
              IN F(Threads)
 
@@ -86,14 +94,14 @@ Commit(op, t, kind, msg, ok, fail, s, inp) ==
     /\ hist' = Append(hist, inp)
     /\ cs' = s.cs /\ initErr' = s.initErr /\ inv' = s.inv /\ th' = s.th
 
-StartCall(t, kind, fail) ==
+StartCall(t, kind, fail, gated) ==
   /\ th[t].pc = "idle"
   /\ (kind = "send" => nmsg < MaxMsg)
   /\ LET m == IF kind = "send" THEN nmsg + 1 ELSE 0
-         s0 == [Start0 EXCEPT !.th[t] = [kind |-> kind, msg |-> m, fail |-> fail, pc |-> "new"]]
+         s0 == [Start0 EXCEPT !.th[t] = [kind |-> kind, msg |-> m, fail |-> fail, gated |-> gated, pc |-> "new"]]
          s == Settle(s0, {})
      IN /\ nmsg' = IF kind = "send" THEN nmsg + 1 ELSE nmsg
-        /\ Commit("start", t, kind, m, FALSE, fail, s, [op |-> "start", th |-> t, kind |-> kind, msg |-> m, fail |-> fail])
+        /\ Commit("start", t, kind, m, FALSE, fail, s, [op |-> "start", th |-> t, kind |-> kind, msg |-> m, fail |-> fail, gated |-> gated])
   /\ UNCHANGED cancelled
 
 StreamerReturns(ok) ==
@@ -101,7 +109,9 @@ StreamerReturns(ok) ==
   /\ LET t == CHOOSE x \in Threads : th[x].pc = "gate"
          c == th[t]
          \* the creating SendMsg continues: store stream or error, unlock, broadcast, then delegate
-         s0 == IF ok
+         s0 == IF ok /\ c.gated
+               THEN [Start0 EXCEPT !.cs = TRUE, !.initErr = FALSE, !.th[t].pc = "dgate"]
+               ELSE IF ok
                THEN [Start0 EXCEPT !.cs = TRUE, !.initErr = FALSE, !.th[t] = Idle,
                                    !.dlog = <<[kind |-> "send", msg |-> c.msg]>>,
                                    !.rets = <<[th |-> t, kind |-> "send", msg |-> c.msg, res |-> IF c.fail THEN "ERRD" ELSE "OK"]>>]
@@ -119,11 +129,11 @@ Cancel ==
 
 Next ==
   /\ Len(hist) < MaxDepth
-  /\ \/ \E f \in (IF UseFail THEN BOOLEAN ELSE {FALSE}) : StartCall("S", "send", f)
-     \/ StartCall("S", "closesend", FALSE)
-     \/ \E f \in (IF UseFail THEN BOOLEAN ELSE {FALSE}) : StartCall("R", "recv", f)
-     \/ \E k \in {"header", "trailer"} : StartCall("R", k, FALSE)
-     \/ (UseX /\ \E k \in {"context", "header"} : StartCall("X", k, FALSE))
+  /\ \/ \E f \in (IF UseFail THEN BOOLEAN ELSE {FALSE}), gt \in (IF UseGate THEN BOOLEAN ELSE {FALSE}) : StartCall("S", "send", f, gt)
+     \/ StartCall("S", "closesend", FALSE, FALSE)
+     \/ \E f \in (IF UseFail THEN BOOLEAN ELSE {FALSE}) : StartCall("R", "recv", f, FALSE)
+     \/ \E k \in {"header", "trailer"} : StartCall("R", k, FALSE, FALSE)
+     \/ (UseX /\ \E k \in {"context", "header"} : StartCall("X", k, FALSE, FALSE))
      \/ \E ok \in BOOLEAN : StreamerReturns(ok)
      \/ Cancel
 
